@@ -49,6 +49,11 @@ T = {
  'c19q': ('lift_context on a program that writes the same context expression at two places', 'C19 forward-unrelated / edit-log-miscounts (needed the root rounds_c and the checks on whole-program passes that report edits)'),
  'c18q': ('two threads rounding non-dyadic operands under the same module-level context object (or a cancellation between the two stores of the memo)', 'C18 H1/A3'),
  'c18r': ("a definition evaluated only on a throw-away interpreter, freed, its address taken by a different definition", 'C18 A3 on make_plain_fn (needed factory-function definitions on throw-away interpreters; allocator-dependent)'),
+ 'c17m': ('a bounded fixed-point context with random bits and an operand in the open gap just past a bound', 'C17 draw-count at the top_gap positions'),
+ 'c18s': ('the same library constant first under p digits, then under p+1 or p+2 digits', 'C18 A3 on consts (needed constant-using workloads and the MP12/MP25 contexts)'),
+ 'c18t': ('inline of a callee with a free variable from another scope, then the source compiled afresh', 'C18 H1/A3/H2 on uses_closure'),
+ 'c19r': ('a candidate call inside the argument of another candidate call, aimed at by index', 'C19 index-and-listed-site-differ'),
+ 'c19s': ('an empty region of the listed program as within=', 'C19 within-not-the-sites-at-or-beneath (needed empty regions as within= and as aims)'),
 }
 base = os.path.join(os.path.dirname(os.path.dirname(os.path.abspath(__file__))), 'seeded')
 for mid, (needs, caught) in T.items():
